@@ -8,6 +8,23 @@ def run(prop, path):
     wd = os.path.join(vlib.outdir(prop), "replay")
     os.makedirs(wd, exist_ok=True)
     binp = vlib.build_harness(wd, driver=rec["driver"])
+    if rec.get("crash"):
+        # the library panicked in one of its own goroutines and took the process down: run the recorded
+        # shard command again (its schedule file, if any, must still be there; otherwise the seeded part only)
+        import subprocess
+        cmd = list(rec["crash"]["cmd"])
+        if "-sched" in cmd and not os.path.exists(cmd[cmd.index("-sched") + 1]):
+            i = cmd.index("-sched")
+            del cmd[i:i + 6]
+        for flag, val in (("-out", os.path.join(wd, "crash.ndjson")), ("-stats", os.path.join(wd, "crash.stats.json"))):
+            cmd[cmd.index(flag) + 1] = val
+        p = subprocess.run([binp] + cmd, cwd=wd, stdout=subprocess.PIPE, stderr=subprocess.STDOUT, text=True)
+        c = vlib.library_panic(p.stdout) if p.returncode != 0 else None
+        print("re-ran the shard: exit %d; library panic: %s" % (p.returncode, c))
+        if c:
+            print("VIOLATION property=%s replay=%s" % (prop, path))
+            return 1
+        return 0
     # Go's select picks among several ready cases at random (not seedable): the same schedule is run
     # 30 times and the violation counts as reproduced if any of them shows it
     scheds = [{"name": "replay%d" % i, "scenario": rec["scenario"], "labels": rec["labels"]} for i in range(30)]
